@@ -1,10 +1,6 @@
 import KinModel.Lemmas.C04Local2
 namespace KinModel.DocValidate
 
-theorem hasCheck_single (T : Table) (o : Opts) (k : Kind) (n g : String) (h : rowsFor T.checks k n = [[g]]) :
-    hasCheck T o k n = litHolds o g := by
-  simp [hasCheck, h, anyHolds, guardsHold]
-
 theorem schemaType_all (o : Opts) (a : Attrs) (hi : Bool) (ty : String) :
     ((schemaTypeViols a hi ty).all fun v => !enabled o v) = schemaTypeOKCode o a hi ty := by
   unfold schemaTypeViols schemaTypeOKCode
@@ -24,9 +20,8 @@ theorem localOK_schema (T : Table) (o : Opts) (a : Attrs) (kids : List (String Ã
     localOK T o (.node .schema a kids) vs = rulesOK o (.node .schema a kids) := by
   have hx := checkExt_eq T o (.node .schema a kids) hT (by simp [extKinds, Doc.kind])
   have hf := tableFacts T hT
-  have hd := hasCheck_single T o .schema "default" _ hf.sDefault
-  have he := hasCheck_single T o .schema "example" _ hf.sExample
-  simp only [litHolds] at hd he
+  have hd : hasCheck T o a .schema "default" = !o.defDisabled := anyHolds_as o a _ _ hf.sDefault
+  have he : hasCheck T o a .schema "example" = !o.exDisabled := anyHolds_as o a _ _ hf.sExample
   simp (disch := decide) only [localOK, rulesOK, violations, Doc.kind, Doc.attrs, schemaOKCode, List.all_append, all_when,
     extra_all, hx, hd, he, enabled_plain, List.all_flatMap, schemaType_all]
   simp only [enabled]
